@@ -87,6 +87,10 @@ def rule_c(repo, an, prop='C06'):
             if (qual, text) in seen:
                 continue
             seen.add((qual, text))
+            if text.endswith('[metadata list]'):
+                findings.append(Finding(prop, 'R-c', fn.where, text, 'a tensor train is given the row_dims / col_dims / ranks LIST object of another live tensor train: an in-place operation on '
+                                        'either (rank_transpose, a partial transpose, a store into row_dims[k]) changes the metadata of both, which then no longer match the cores of one of them', fn.file, line))
+                continue
             findings.append(Finding(prop, 'R-c', fn.where, text, 'a tensor train is built around the core LIST object of another live tensor train '
                                     '(both would see each other\'s slot updates)', fn.file, line))
     return findings
@@ -515,6 +519,8 @@ def run_controls(run):
     run.control('negative control: copying variant is silent (controls/c06 good_solver)', not any(k[1] == 'good_solver' for k in keys))
     fc = rule_c(crepo, can)
     run.control('R-c: TT(x.cores) (controls/c06 bad_wrap)', any('bad_wrap' in x.where for x in fc))
+    run.control('R-c: result given the operand\'s row_dims / col_dims list objects (controls/c06 bad_swapped_dims)', any('bad_swapped_dims' in x.where for x in fc))
+    run.control('negative control: in-place swap of an object\'s own metadata lists is silent (controls/c06 good_swapped_dims_in_place)', not any('good_swapped_dims_in_place' in x.where for x in fc))
     fe, _ = rule_e(crepo, can)
     run.control('R-e: same object appended in every iteration and mutated (controls/c06 bad_results)', any('bad_results' in x.where for x in fe))
     run.control('negative control: per-iteration copy is silent (controls/c06 good_results)', not any('good_results' in x.where for x in fe))
